@@ -207,6 +207,8 @@ pub struct Profile {
     pub p_custom_which: usize,
     pub p_sleep: usize,
     pub p_filter: usize,
+    /// Percentage of callbacks emitting tracing log lines (vt only).
+    pub p_logs: usize,
 }
 
 impl Profile {
@@ -238,6 +240,7 @@ impl Profile {
             p_custom_which: 8,
             p_sleep: 0,
             p_filter: 15,
+            p_logs: 0,
         }
     }
 
@@ -401,6 +404,28 @@ impl Profile {
                 p_parse_err: 0,
                 ..g
             },
+            // tracing attribution: many concurrent scenarios logging around await points
+            "c20" => Profile {
+                name: "c20",
+                max_features: 2,
+                max_top_scen: 5,
+                max_rule_scen: 3,
+                max_steps: 3,
+                p_serial: 5,
+                p_retry_tag: 30,
+                p_delay: 0,
+                p_fail_unit: 15,
+                p_hook_fail: 8,
+                p_world_fail: 3,
+                p_lazy: 10,
+                p_parse_err: 0,
+                p_ff: 0,
+                p_gate: 85,
+                p_hook: 100,
+                p_logs: 70,
+                limits: &[Some(2), Some(3), Some(64), None],
+                ..g
+            },
             // small and quick (Miri)
             "tiny" => Profile {
                 name: "tiny",
@@ -470,9 +495,9 @@ impl Gen<'_> {
                 } else {
                     Outcome::Pass
                 },
-                logs_before: 0,
-                logs_after: 0,
-                eager: fail && self.r.chance(1, 4),
+                logs_before: if pct(&mut self.r, self.p.p_logs) { self.r.range(1, 2) as u8 } else { 0 },
+                logs_after: if pct(&mut self.r, self.p.p_logs) { self.r.range(0, 2) as u8 } else { 0 },
+                eager: fail && self.p.p_logs == 0 && self.r.chance(1, 4),
             });
         }
         v
